@@ -66,7 +66,7 @@ def keep(key, species, exclude):
 
 
 def subsets():
-    pool = ("A", "B", "C", "Zz")
+    pool = tuple(LABELS) + ("Zz",)
     out = []
     for n in range(len(pool) + 1):
         for c in itertools.combinations(pool, n):
@@ -75,6 +75,8 @@ def subsets():
 
 
 def run(chk):
+    global LABELS
+    LABELS = ("A", "B", "C", "D") if chk.tier == "thorough" else ("A", "B", "C")
     P = F.load_program()
     chk.explanation = EXPLANATION
     chk.info.update(P.stats())
